@@ -81,4 +81,9 @@ VARIANTS = [
          edits=[dict(file='support_files/ilog.py', old='    const ILog subLog;', new='    const ILog subLog;\n    mutable int m_count = 0;')]),
     dict(id='cxx-ilog-const-member-ok', prop=['C11', 'C06'], expect='silent',
          edits=[dict(file='support_files/ilog.py', old='    const ILog subLog;', new='    const ILog subLog;\n    const int level = 0;')]),
+    # an ordered search is not an exact-match lookup (found by an independent seeded change)
+    dict(id='cxx-selector-index-lower-bound-unchecked', prop='C04', expect='violation', rule='C04.selector',
+         edits=[dict(file=MCS, old='        if (m_clients.count(identifier) == 0)\n        {\n            log.Info("Allocating ClientPort entry for " + identifier);\n            if (m_finalConstructed) throw std::runtime_error("Can not allocate a ClientPort entry when final constructed.");\n\n            m_clients.insert_or_assign(identifier, ClientPort{identifier, m_cbInitializePort(identifier)});\n        }\n\n        return m_clients.at(identifier);\n', new='        auto entry = m_clients.lower_bound(identifier);\n        if (entry == m_clients.end())\n        {\n            log.Info("Allocating ClientPort entry for " + identifier);\n            if (m_finalConstructed) throw std::runtime_error("Can not allocate a ClientPort entry when final constructed.");\n\n            entry = m_clients.emplace_hint(entry, identifier, ClientPort{identifier, m_cbInitializePort(identifier)});\n        }\n\n        return entry->second;\n')]),
+    dict(id='cxx-selector-index-lower-bound-key-compared-ok', prop=['C04', 'C10', 'C11', 'C06'], expect='silent',
+         edits=[dict(file=MCS, old='        if (m_clients.count(identifier) == 0)\n        {\n            log.Info("Allocating ClientPort entry for " + identifier);\n            if (m_finalConstructed) throw std::runtime_error("Can not allocate a ClientPort entry when final constructed.");\n\n            m_clients.insert_or_assign(identifier, ClientPort{identifier, m_cbInitializePort(identifier)});\n        }\n\n        return m_clients.at(identifier);\n', new='        auto entry = m_clients.lower_bound(identifier);\n        if (entry == m_clients.end() || entry->first != identifier)\n        {\n            log.Info("Allocating ClientPort entry for " + identifier);\n            if (m_finalConstructed) throw std::runtime_error("Can not allocate a ClientPort entry when final constructed.");\n\n            entry = m_clients.emplace_hint(entry, identifier, ClientPort{identifier, m_cbInitializePort(identifier)});\n        }\n\n        return entry->second;\n')]),
 ]
